@@ -178,6 +178,27 @@ def run(rep, tier, rng):
                 ocases.append("100000 | %s 7 8 9 | | | | begin %s end" % (" ".join(map(str, w2 + w)), nm))
                 owant.append(([int(w2 == w)] + w2 + w + [7, 8, 9]) if nm == "eqw" else ([7, 8, 9] if w2 == w else None))
                 onames.append(nm)
+    # assertions with an error code: the code of the failing assertion is the one reported
+    ecases = []
+    for code in (None, 0, 1, 77, 2**31, 2**32 - 1):
+        sfx = "" if code is None else ".err=%d" % code
+        cv = 0 if code is None else code
+        big = ro.choice([2**32, P - 1, 2**32 + ro.below(2**31)])
+        ecases += [("assert" + sfx, [0, 7, 8], "ERR AssertFailed %d " % cv), ("assert" + sfx, [1, 7, 8], None),
+                   ("assertz" + sfx, [1, 7, 8], "ERR AssertFailed %d " % cv), ("assertz" + sfx, [0, 7, 8], None),
+                   ("assert_eq" + sfx, [3, 4, 8], "ERR AssertFailed %d " % cv), ("assert_eq" + sfx, [4, 4, 8], None),
+                   ("assert_eqw" + sfx, [1, 2, 3, 4, 1, 2, 3, 5, 8], "ERR AssertFailed %d " % cv), ("assert_eqw" + sfx, [1, 2, 3, 4, 1, 2, 3, 4, 8], None),
+                   ("u32assert" + sfx, [big, 7, 8], "ERR NotU32 %d %d " % (big, cv)), ("u32assert" + sfx, [5, 7, 8], None),
+                   ("u32assert2" + sfx, [1, big, 8], "ERR NotU32 %d %d " % (big, cv)), ("u32assert2" + sfx, [1, 2, 8], None),
+                   ("u32assertw" + sfx, [1, 2, 3, big, 8], "ERR NotU32 %d %d " % (big, cv)), ("u32assertw" + sfx, [1, 2, 3, 4, 8], None)]
+    eouts = common.run_impl("masm", ["1000 | %s | | | | begin %s end" % (" ".join(map(str, st)), ins) for ins, st, _ in ecases], tag="c05x")
+    for (ins, st, want_err), x in zip(ecases, eouts):
+        dist["doc:errcode:%s" % x.split()[0]] += 1
+        bad = (not x.startswith(want_err)) if want_err else (not x.startswith("OK"))
+        if bad:
+            rep.violation("instruction %s on %s: expected %s, the implementation gives %s" % (ins, st, want_err or "success", x[:80]),
+                          {"kind": "search", "family": "masm", "case": "1000 | %s | | | | begin %s end" % (" ".join(map(str, st)), ins), "impl": x[:300], "instr": ins})
+            found = True
     for c, w, nm, x in zip(ocases, owant, onames, common.run_impl("masm", ocases, tag="c05d")):
         dist["doc:%s:%s" % (nm.split(".")[0], x.split()[0])] += 1
         got = None
